@@ -59,3 +59,31 @@ func emitAllLeafCode(repo string) (string, error) {
 		skip:    map[string]string{},
 	})
 }
+
+// the other three leaf kinds (leaf.go): `match` of staticLeaf, placeholderLeaf and regexLeaf — Gen/StaticLeafCode.lean,
+// Gen/HoleLeafCode.lean, Gen/RegexLeafCode.lean. As for the match-all leaf, `matchHeader` is the parameter `hdrOK`.
+func leafCfg(recv, ns string) codeCfg {
+	return codeCfg{
+		pkg:          "./internal/route",
+		recvType:     recv,
+		namespace:    "Flamego.Gen." + ns,
+		imports:      []string{"Flamego.Code.GoSem", "Flamego.Code.LibRoute"},
+		stringBytes:  true,
+		opaqueFields: true,
+		types:        map[string]string{"net/http.Header": "Lib.Header", "*regexp.Regexp": "Lib.Regexp"},
+		lib: map[string]string{
+			"(*github.com/flamego/flamego/internal/route.baseLeaf).matchHeader": "hdrOK",
+			"(*regexp.Regexp).FindStringSubmatch":                               "Lib.Regexp_FindStringSubmatch E",
+		},
+		prelude: "variable (E : Flamego.Engine)\n-- `baseLeaf.matchHeader`: does the request satisfy the header constraints attached to this leaf\nvariable (hdrOK : " + recv + " → Lib.Header → Bool)\n",
+		skip:    map[string]string{"Static": "walks the parents of the leaf (trees are not translated)"},
+	}
+}
+
+func init() {
+	emitters["StaticLeafCode"] = func(repo string) (string, error) { return translateType(repo, leafCfg("staticLeaf", "StaticLeafCode")) }
+	emitters["HoleLeafCode"] = func(repo string) (string, error) {
+		return translateType(repo, leafCfg("placeholderLeaf", "HoleLeafCode"))
+	}
+	emitters["RegexLeafCode"] = func(repo string) (string, error) { return translateType(repo, leafCfg("regexLeaf", "RegexLeafCode")) }
+}
